@@ -73,6 +73,10 @@ CHECKS = {
          "Generated workloads (ingest into 1-2 tables, force_flush with and without compaction, restart) are run once while hook H1 records every primitive file-system effect; then EVERY prefix of that effect sequence, plus torn temp files (1, half, all-but-one bytes), is materialised as a directory and opened: opening must terminate without panic and the content (tables, columns, rows, catalogue) must equal the acknowledged prefix or that plus the one in-flight ingestion taken whole; the recovered database is flushed and reopened (same content) and every prefix of the recovery's own effects is materialised and recovered again (idempotence).",
          "DESIGN.md 4 C09", "Crash model = prefix of the recorded effect sequence (no reordering of un-synced writes, no lost rename); generation picks the workload, enumeration covers all of its crash points.",
          "property-based workload generation (proptest) + exhaustive crash-point enumeration via a file-system effect hook; model oracle"),
+ "C10": ("exploration",
+         "Placed schedules: a generated workload (flushed and unflushed batches whose rows are tagged (batch, idx), a column present only in some batches) followed by a force_flush that hook H2 parks at each of 11 lock-free step boundaries of flush and compaction; at the parked point five query kinds (existing / absent / partly absent columns, SELECT *, per-batch counts) run, optionally after a second ingestion, and again after release; all labels x all query kinds are enumerated per workload. Plus multi-threaded stress (2 writers, flusher, optional evictor, 2 query threads). Every answer must be prefix-consistent: no duplicate row, each batch entirely or not at all, every batch acknowledged before the query started present; no query may fail and no database thread may panic.",
+         "DESIGN.md 4 C10", "The harness owns the schedule only at the named sync points; interleavings inside a step are sampled by the stress part (nondeterministic: a stress failure is reproducible only statistically). A parked query that completes only after the flush is released counts as inconclusive.",
+         "schedule placement via sync-point hooks (enumerated labels x queries) over proptest-generated workloads, plus randomized multi-threaded stress; prefix-consistency invariant oracle"),
 }
 
 NOT_YET = {
